@@ -26,6 +26,20 @@ def call(table, kind, base):
     from harness.watchdog import Expired, deadline
     nr = len(table)
     nc = len(table[0]) if nr else 0
+    # "<kind>+eq": the row / column labels handed to the routine all compare (and hash) EQUAL although they are different
+    # items - the table is positional, so this must make no difference
+    equal_labels = kind.endswith("+eq")
+    kind = kind.split("+")[0]
+
+    class Label:
+        def __init__(self, i):
+            self.i = i
+
+        def __eq__(self, other):
+            return isinstance(other, Label)
+
+        def __hash__(self):
+            return 7
 
     def conv(w):
         if w < 0:
@@ -40,7 +54,11 @@ def call(table, kind, base):
     rec = {"table": table, "result": [], "raised": False, "exc": ""}
     try:
         with deadline(10.0):
-            res = min_weight_bipartite_matching(list(range(nr)), list(range(nc)), lambda r, c: real[r][c])
+            if equal_labels:
+                res = min_weight_bipartite_matching([Label(i) for i in range(nr)], [Label(j) for j in range(nc)],
+                                                    lambda r, c: real[r.i][c.i])
+            else:
+                res = min_weight_bipartite_matching(list(range(nr)), list(range(nc)), lambda r, c: real[r][c])
         out = []
         for r, (c, w) in res.items():
             if kind == "int":
@@ -94,6 +112,8 @@ def run():
         boolable = complete and all(w <= 1 for row in tb for w in row)
         jobs.append((tb, "int", 0))
         jobs.append((tb, "float", 0))
+        if ti % 3 == 0:
+            jobs.append((tb, "int+eq", 0))
         if boolable:
             jobs.append((tb, "bool", 0))
         # dtype boundaries: every table at one boundary (rotating), complete tables at all of them in the thorough tier
@@ -110,7 +130,7 @@ def run():
         sparse = r.random() < 0.4
         wmax = r.choice((1, 2, 3, 9, 300))
         tb = [[(-1 if sparse and r.random() < 0.3 else r.randint(0, wmax)) for _ in range(nc)] for _ in range(nr)]
-        jobs.append((tb, r.choice(("int", "float")), r.choice(BASES[:5] + NEG_BASES)))
+        jobs.append((tb, r.choice(("int", "float", "int+eq", "float+eq")), r.choice(BASES[:5] + NEG_BASES)))
     ctx = mp.get_context("fork")
     with ctx.Pool(min(16, os.cpu_count() or 4), initializer=_init, maxtasksperchild=5000) as pool:
         records = pool.map(_job, jobs, chunksize=64)
